@@ -50,7 +50,12 @@ impl ZervVars {
     fn derive_short_hash(hash: Option<&String>) -> Option<String> {
         hash.map(|h| {
             if h.len() >= 8 {
-                h[..8].to_string()
+                // Cut on a char boundary: an overridden hash may hold non-ASCII text
+                let mut end = 8;
+                while !h.is_char_boundary(end) {
+                    end -= 1;
+                }
+                h[..end].to_string()
             } else {
                 h.clone()
             }
